@@ -1,0 +1,9 @@
+//go:build verif
+
+// Contracts for the govc verifier (/verif). Comment-only: this file contains no code.
+package gzip
+
+//@ func NewGzipHandler
+//@   trusted
+//@   assigns nothing
+//@   ensures result != nil
